@@ -139,3 +139,25 @@ Proof.
   - apply list_fm_sound. vm_compute. intuition.
   - vm_compute. intuition discriminate.
 Qed.
+
+(* the hypothesis of C36_members_complete is sufficient, not necessary: in a DIAMOND (type Core struct{X int}, method Cm;
+   type L struct{Core; A int}; type R struct{*Core; B int}; type D struct{L; R}) the struct Core is reached twice, so
+   NoDup fails and VisitFields' seen-set skips the second visit, yet every member by Go's promotion rule is offered
+   (the skipped visit would only repeat names).  The general statement for repeated struct types is not proved. *)
+Definition tCore : ty := TStruct 10 [s "Cm"] [(s "X", false, tInt)].
+Definition tL : ty := TStruct 11 [] [(s "Core", true, tCore); (s "A", false, tInt)].
+Definition tR : ty := TStruct 12 [] [(s "Core", true, TPtr tCore); (s "B", false, tInt)].
+Definition tD : ty := TStruct 13 [] [(s "L", true, tL); (s "R", true, tR)].
+Example C36_ex_diamond :
+  ~ NoDup (emb_ids tD) /\
+  (forall n, In n [s "L"; s "R"; s "Core"; s "Cm"; s "A"; s "B"; s "X"] -> go_member tD n /\ In n (list_fm tD [])).
+Proof.
+  split.
+  - assert (E : emb_ids tD = [13; 11; 10; 12; 10]%N) by (vm_compute; reflexivity). rewrite E. intros H.
+    apply NoDup_cons_iff in H as [_ H]. apply NoDup_cons_iff in H as [_ H]. apply NoDup_cons_iff in H as [H _].
+    apply H. simpl. auto.
+  - intros n Hn.
+    assert (Hl : In n (list_fm tD [])).
+    { simpl in Hn. repeat (destruct Hn as [<-|Hn]; [vm_compute; auto 20|]). contradiction. }
+    split; [apply list_fm_sound; exact Hl|exact Hl].
+Qed.
